@@ -813,7 +813,7 @@ func (g *graph) compile(ctx context.Context, opt *graphCompileOptions) (*composa
 	}
 
 	if runType == runTypeDAG {
-		err := validateDAG(r.chanSubscribeTo, controlPredecessors)
+		err := validateDAG(r.chanSubscribeTo, controlPredecessors, dataPredecessors)
 		if err != nil {
 			return nil, err
 		}
@@ -1020,48 +1020,55 @@ func transferTask(script [][]string, invertedEdges map[string][]string) [][]stri
 	return script
 }
 
-func validateDAG(chanSubscribeTo map[string]*chanCall, controlPredecessors map[string][]string) error {
-	m := map[string]int{}
+func validateDAG(chanSubscribeTo map[string]*chanCall, controlPredecessors, dataPredecessors map[string][]string) error {
+	// dependencies of either kind (control or data only) must not form a cycle: a node on a cycle
+	// can never become ready, and skip propagation along a cycle would never end
+	preds := make(map[string]map[string]struct{}, len(chanSubscribeTo))
+	succs := make(map[string][]string, len(chanSubscribeTo))
 	for node := range chanSubscribeTo {
-		if edges, ok := controlPredecessors[node]; ok {
-			m[node] = len(edges)
-			for _, pre := range edges {
-				if pre == START {
-					m[node] -= 1
-				}
-			}
-		} else {
-			m[node] = 0
-		}
+		preds[node] = map[string]struct{}{}
 	}
-	hasChanged := true
-	for hasChanged {
-		hasChanged = false
-		for node := range m {
-			if m[node] == 0 {
-				hasChanged = true
-				for _, subNode := range chanSubscribeTo[node].controls {
-					if subNode == END {
-						continue
-					}
-					m[subNode]--
+	for _, predecessors := range []map[string][]string{controlPredecessors, dataPredecessors} {
+		for node, pres := range predecessors {
+			if _, ok := preds[node]; !ok {
+				continue // END
+			}
+			for _, pre := range pres {
+				if pre == START {
+					continue
 				}
-				for _, subBranch := range chanSubscribeTo[node].writeToBranches {
-					for subNode := range subBranch.endNodes {
-						if subNode == END {
-							continue
-						}
-						m[subNode]--
-					}
+				if _, ok := preds[node][pre]; !ok {
+					preds[node][pre] = struct{}{}
+					succs[pre] = append(succs[pre], node)
 				}
-				m[node] = -1
 			}
 		}
 	}
 
-	for k, v := range m {
-		if v > 0 {
-			return fmt.Errorf("DAG invalid, node[%s] has loop", k)
+	var queue []string
+	for node, pres := range preds {
+		if len(pres) == 0 {
+			queue = append(queue, node)
+		}
+	}
+	visited := 0
+	for len(queue) > 0 {
+		node := queue[0]
+		queue = queue[1:]
+		visited++
+		for _, succ := range succs[node] {
+			delete(preds[succ], node)
+			if len(preds[succ]) == 0 {
+				queue = append(queue, succ)
+			}
+		}
+	}
+
+	if visited != len(preds) {
+		for node, pres := range preds {
+			if len(pres) > 0 {
+				return fmt.Errorf("DAG invalid, node[%s] has loop", node)
+			}
 		}
 	}
 	return nil
